@@ -106,6 +106,30 @@ pub fn run(opts: &Opts) -> i32 {
     if opts.prop == "C17" {
         return crate::c17::run(opts, &pi);
     }
+    if let Some(r) = &opts.replay {
+        let rj = crate::read_json(&r.to_string_lossy());
+        let artifact = match &rj {
+            Some(j) => j["env"]["fuzz_artifact"].as_str().map(|s| s.to_string()),
+            None => Some(r.to_string_lossy().to_string()),
+        };
+        if let Some(a) = artifact {
+            let t = if opts.prop == "C19" { "fz_cursor" } else { "fz_subjects" };
+            return match crate::fuzz::replay(t, &opts.prop, &a) {
+                Ok(true) => {
+                    println!("VIOLATION property={} replay={}", opts.prop, a);
+                    1
+                }
+                Ok(false) => {
+                    println!("OK property={} replay of {} no longer fails", opts.prop, a);
+                    0
+                }
+                Err(e) => {
+                    eprintln!("INFRASTRUCTURE: {}", e);
+                    2
+                }
+            };
+        }
+    }
     let labels = if let Some(r) = &opts.replay {
         let rj = crate::read_json(&r.to_string_lossy()).unwrap_or(Value::Null);
         vec![rj["universe"].as_str().filter(|u| *u != "-").unwrap_or("fixed").to_string()]
@@ -191,6 +215,20 @@ pub fn run(opts: &Opts) -> i32 {
             Err(e) => infra_err = Some(format!("AddressSanitizer build: {}", e)),
         }
         build::set_variant("");
+    }
+    // ---- thorough: coverage-guided campaign (libFuzzer + AddressSanitizer) with the property's oracle in-target
+    if opts.tier == "thorough" && opts.replay.is_none() {
+        let target = if opts.prop == "C19" { Some("fz_cursor") } else if crate::fuzz::FUZZ_PROPS.contains(&opts.prop.as_str()) { Some("fz_subjects") } else { None };
+        if let Some(t) = target {
+            let runs: u64 = std::env::var("VERIF_FUZZ_RUNS").ok().and_then(|v| v.parse().ok()).unwrap_or(if t == "fz_cursor" { 400_000 } else { 100_000 });
+            match crate::fuzz::campaign(t, &opts.prop, opts, runs) {
+                Ok(r) => {
+                    agg.add_report(&r);
+                    agg.universes.push(json!({"label": format!("libFuzzer campaign {}", t), "executions": r["evaluations"], "wall_s": r["wall_s"]}));
+                }
+                Err(e) => infra_err = Some(format!("fuzz campaign: {}", e)),
+            }
+        }
     }
     let code = finish(opts, &pi, agg, start, infra_err);
     code
